@@ -11,12 +11,19 @@ continues PcProps/C16Safety.lean and C16Safety3.lean).  Only property theorems, 
 * `PcProofs/SafetyHardBound.lean`, `SafetyHardAbs.lean`: the absolute majorant of all hard leaves, `≤ Σ_{n ≤ N} ⌊x/n⌋ ≤ x·k` for
   `N < 2^k` (`(b, m) ↦ p_b·m` is injective; dyadic harmonic bound) — additive over windows, so it bounds every chunk value and
   every partial sum of chunk values in ANY order of arrival.
+
+## S1 / Phi0 (src/S1.cpp, src/gourdon/Phi0.cpp) — `T` is the SIGNED `int64_t` / `int128_t`
+* `PcModel/SafetyLeaf.lean`: `leafThreadC`, `leafBodyC`, `ompReduceC`, `leafOpenMPC` — `MU * phi_tiny(…)`, every `s1 += …` of every
+  recursion level, the thread-private copies and the reduction checked.
+* `PcProofs/SafetyLeaf.lean`, `SafetyLeafOmp.lean`: checked = unchecked as soon as the absolute sum of all ordinary leaves
+  `absG = Σ_n φ(x/n, c)` fits; the leaves are distinct numbers `n ≤ z`, so `absG ≤ Σ_{n ≤ z} ⌊x/n⌋ ≤ x·k` for `z < 2^k`.
 -/
 import PcProofs.SafetyHardAbs
 import PcProofs.HardExamples
+import PcProofs.SafetyLeafOmp
 
 namespace Pc.C16Safety4
-open Pc.Hard Nat Finset
+open Pc Pc.Hard Nat Finset
 open scoped Nat.Prime
 
 /-! ## S2_hard / D -/
@@ -117,6 +124,42 @@ example : retS 10 (-12) = .error .ovfRet := by decide
 example : (match leafFoldC 5 (refSieve fun _ => 0) 0 10 0 [(7, 1)] ⟨0, Array.replicate 10 true⟩ 0 with
     | .error .ovfCount => true | _ => false) = true := by decide
 
+/-! ## S1 / Phi0 -/
+
+/-- **`S1_OpenMP`, width-checked, EVERY schedule**: `1 ≤ y` within the table, `c ≤ 8`, the operand type holds `y²`;
+    if `y < 2^k` and `x·k ≤ sMax` (`sMax` = maximum of the signed `T`): every `MU * phi_tiny(…)`, every `s1 += …` of every level of
+    the recursion `S1_thread`, every thread-private copy and every reduction step is value-preserving; the result is `S1 x y c`. -/
+theorem S1_no_overflow {t : NT} (hv : t.Valid) {w : ITy} {sMax x y c k : ℕ} (hy1 : 1 ≤ y) (hy : y ≤ t.bound) (hc : c ≤ 8)
+    (hw : y * y ≤ w.maxVal) (hk : y < 2 ^ k) (hxk : x * k ≤ sMax)
+    {sched : List (List ℕ)} (hs : IsSchedule (c + 1) (π y) sched) :
+    leafOpenMPC sMax t w x y y c sched = .ok (Spec.S1 x y c) :=
+  leafOpenMPC_eq hv hy1 hy hc le_rfl hw (le_trans (Spec.absG_le x y c (π y) c k hk) hxk) hs
+
+/-- **`Phi0_OpenMP`, width-checked, EVERY schedule** (`1 ≤ y ≤ z`, `k₀ ≤ 8`, the operand type holds `z·y`; `z < 2^k`, `x·k ≤ sMax`) -/
+theorem Phi0_no_overflow {t : NT} (hv : t.Valid) {w : ITy} {sMax x y z k0 k : ℕ} (hy1 : 1 ≤ y) (hy : y ≤ t.bound) (hk0 : k0 ≤ 8)
+    (hyz : y ≤ z) (hw : z * y ≤ w.maxVal) (hk : z < 2 ^ k) (hxk : x * k ≤ sMax)
+    {sched : List (List ℕ)} (hs : IsSchedule (k0 + 1) (π y) sched) :
+    leafOpenMPC sMax t w x y z k0 sched = .ok (Spec.Phi0 x y z k0) :=
+  leafOpenMPC_eq hv hy1 hy hk0 hyz hw (le_trans (Spec.absG_le x z k0 (π y) k0 k hk) hxk) hs
+
+/-- **the 128-bit entry points — FULL for every `x ≤ 2^120` (primecount's limit is `10^31 < 2^104`)**: `z < 2^63` (an `int64_t`),
+    `T = int128_t` -/
+theorem S1_Phi0_128_no_overflow {t : NT} (hv : t.Valid) {w : ITy} {x y z c : ℕ} (hy1 : 1 ≤ y) (hy : y ≤ t.bound) (hc : c ≤ 8)
+    (hyz : y ≤ z) (hw : z * y ≤ w.maxVal) (hz : z < 2 ^ 63) (hx : x ≤ 2 ^ 120)
+    {sched : List (List ℕ)} (hs : IsSchedule (c + 1) (π y) sched) :
+    leafOpenMPC (2 ^ 127 - 1) t w x y z c sched = .ok (Spec.ord x z c (π y)) :=
+  leafOpenMPC_eq hv hy1 hy hc hyz hw (le_trans (Spec.absG_le x z c (π y) c 63 hz) (by
+    have : x * 63 ≤ 2 ^ 120 * 63 := Nat.mul_le_mul_right _ hx
+    norm_num at this ⊢; omega)) hs
+
+/-- non-vacuity: `S1(100000, 60, 3)`, `int64_t`, team of 3 threads -/
+example := S1_no_overflow (NT.build_valid 100) (w := .i64) (sMax := 2 ^ 63 - 1) (x := 100000) (y := 60) (c := 3) (k := 6)
+  (by norm_num) (by show 60 ≤ 100; norm_num) (by norm_num) (by decide) (by norm_num) (by norm_num)
+  (sched := staticSched1 4 (π 60) 3) (staticSched1_isSchedule _ _ (by norm_num))
+example : accS 10 7 5 = .error .ovfAcc := by decide
+example : accS 10 (-7) (-5) = .error .ovfAcc := by decide
+example : mulS 10 (-1) 12 = .error .ovfProd := by decide
+
 end Pc.C16Safety4
 
 #print axioms Pc.C16Safety4.S2_hard_thread_no_overflow
@@ -125,3 +168,6 @@ end Pc.C16Safety4
 #print axioms Pc.C16Safety4.D_values_bounded
 #print axioms Pc.C16Safety4.S2_hard_sum_no_overflow
 #print axioms Pc.C16Safety4.D_sum_no_overflow
+#print axioms Pc.C16Safety4.S1_no_overflow
+#print axioms Pc.C16Safety4.Phi0_no_overflow
+#print axioms Pc.C16Safety4.S1_Phi0_128_no_overflow
